@@ -604,8 +604,8 @@ class ExecutorBase:
         st.assume(z3.ForAll([j], z3.Implies(z3.And(0 <= j, j < la), H.list_get(st, ro, j) == H.list_get(st, ra, j))))
         st.assume(z3.ForAll([j], z3.Implies(z3.And(0 <= j, j < lb), H.list_get(st, ro, la + j) == H.list_get(st, rb, j))))
         # same fact keyed on the position in the result (a pattern `out[la + j]` never matches a plain index term)
-        st.assume(z3.ForAll([j], z3.Implies(z3.And(la <= j, j < la + lb), H.list_get(st, ro, j) == H.list_get(st, rb, j - la)),
-                            patterns=[H.list_get(st, ro, j)]))
+        st.assume(_forall_pat([j], z3.Implies(z3.And(la <= j, j < la + lb), H.list_get(st, ro, j) == H.list_get(st, rb, j - la)),
+                              H.list_get(st, ro, j)))
         return out
 
     # ------------------------------------------------------------------------------------ comparisons
